@@ -74,3 +74,12 @@
 #endif
 
 #include "stem.h"
+
+/* The most negative integer divided by -1 (or taken modulo -1) traps in hardware:
+ * dividing by -1 is done by negation, and the remainder is 0. */
+static inline int64_t lpc_int_div (int64_t a, int64_t b) {
+  return (b == -1) ? (int64_t) (0 - (uint64_t) a) : a / b;
+}
+static inline int64_t lpc_int_mod (int64_t a, int64_t b) {
+  return (b == -1) ? 0 : a % b;
+}
